@@ -35,13 +35,15 @@ pub struct Src {
     pub index_range: usize,
     pub log: Vec<String>,
     pub keep_log: bool,
-    /// when set, every ordinary scalar drawn is moved by -2..=2 units in the last place (conditioning probe)
+    /// when set, every ordinary scalar drawn is moved by -64..=64 units in the last place (conditioning probe)
     pub perturb: Option<Rng>,
+    /// largest finite |scalar| drawn so far (magnitude scale of the call's inputs)
+    pub max_abs: f64,
 }
 
 impl Src {
     pub fn new(seed: u64, mode: Mode) -> Src {
-        Src { rng: Rng::new(seed), mode, hot: None, slot: 0, hidden: Hidden::Natural, pool: HashMap::new(), pool_prob: 0.0, buf_len: 16, index_range: 2, log: vec![], keep_log: false, perturb: None }
+        Src { rng: Rng::new(seed), mode, hot: None, slot: 0, hidden: Hidden::Natural, pool: HashMap::new(), pool_prob: 0.0, buf_len: 16, index_range: 2, log: vec![], keep_log: false, perturb: None, max_abs: 0.0 }
     }
     pub fn reseed(&mut self, seed: u64) {
         self.rng = Rng::new(seed);
@@ -101,13 +103,16 @@ impl Src {
         };
         let v = match &mut self.perturb {
             Some(pr) if v.finite() && v.f64() != 0.0 => {
-                let k = pr.int_in(-2, 2);
+                let k = pr.int_in(-64, 64);
                 S::from_bits64((v.bits() as i64 + k) as u64)
             }
             _ => v,
         };
         if self.keep_log {
             self.log.push(v.hex());
+        }
+        if v.finite() && v.f64().abs() > self.max_abs {
+            self.max_abs = v.f64().abs();
         }
         v
     }
